@@ -828,7 +828,7 @@ def judge(items, index, out, name, chunk=400):
     return verdicts
 
 
-def run_cases(cases, out, label, root):
+def run_cases(cases, out, label, root, pending=None):
     items = []
     index = {}
     for ci, case in enumerate(cases):
@@ -854,7 +854,11 @@ def run_cases(cases, out, label, root):
         nb = sum(1 for e in it["events"] if not e["stop"])
         out.add_case({k: v for k, v in _public(case).items() if k not in ("seed", "shuffle")}, nontrivial=nb >= 2)
     shutil.rmtree(os.path.join(root, "case"), ignore_errors=True)
-    judge(items, index, out, "c03" + label)
+    if pending is None:
+        judge(items, index, out, "c03" + label)
+    else:  # judged together with the other legs (one TLC start instead of four)
+        pending[0].extend(items)
+        pending[1].update(index)
     return items
 
 
@@ -908,7 +912,6 @@ def run(ctx, out):
     bindex = {b["id"]: dict(b["case"], kind="bnd", src="bounds") for b in bitems}
     for b in bitems:
         out.add_case(("bnd", b["case"]), nontrivial=b["N"] > 1)
-    judge(sitems + bitems, dict(sindex, **bindex), out, "c03seek", chunk=6000)
     out.note("leg S2C/C2S: %d seek cases from the seek model, %d bounds() chains validated" % (len(sitems), len(bitems)))
     out.sample({"source": "bounds", "case": bitems[0]["case"], "per_client": bitems[0]["per"][:3]})
     # ---- function-like leg: every (bulks of a group 1..200/300) x (ingest percentage) pair on real parameter sources
@@ -917,10 +920,11 @@ def run(ctx, out):
     for it in pitems:
         out.add_case(("pct", it["case"]["docs"], it["case"]["clients"]), nontrivial=it["b"] > 1)
     n_before = len(out.violations)
-    judge(pitems, pindex, out, "c03pct", chunk=400)
+    judge(sitems + bitems + pitems, dict(sindex, **bindex, **pindex), out, "c03func", chunk=6000)
     byid = {it["id"]: it for it in pitems}
     for v in out.violations[n_before:]:
-        v.detail += "; " + _pct_detail(byid["pct-%d" % v.case["docs"]])
+        if v.case.get("kind") == "pct":
+            v.detail += "; " + _pct_detail(byid["pct-%d" % v.case["docs"]])
     out.extra["pct_sweep"] = {"groups": len(pitems), "percentages": len(PCT_SWEEP), "pairs": len(pitems) * len(PCT_SWEEP)}
     out.note("leg pct: %d (bulks, ingest-percentage) pairs drained from real parameter sources and validated against the exact ceil" % (len(pitems) * len(PCT_SWEEP)))
     out.sample({"source": "pct-sweep", "bulks": pitems[99]["b"], "clients": pitems[99]["case"]["clients"], "rows": pitems[99]["rows"][5:8]})
@@ -928,12 +932,13 @@ def run(ctx, out):
     # ---- Leg S2C + C2S: behaviours
     sim = behaviours_from_tlc(ctx, out, 250 if quick else 3000)
     out.note("leg S2C: %d TLC behaviours" % len(sim))
-    items = run_cases(sim, out, "sim", root)
+    pending = ([], {})
+    items = run_cases(sim, out, "sim", root, pending)
     ex = next((it for it in items if it["kind"] == "run" and len(it["events"]) > 3), items[0])
     out.sample({"source": "tlc-simulate", "files": ex["files"], "cfg": ex["cfg"], "offsets": ex["off"], "events": ex["events"][:4]})
     n_sched, splits = alloc_enumeration(quick)
     al = enumerated_alloc_cases(splits, ctx.seed + 4) + alloc_cases(ctx.seed + 5, 30 if quick else 600)
-    items = run_cases(al, out, "alloc", root)
+    items = run_cases(al, out, "alloc", root, pending)
     out.extra["real_allocator_groups"] = {
         "schedules_enumerated": n_sched,
         "distinct_splits": len(splits),
@@ -944,10 +949,11 @@ def run(ctx, out):
     out.note("real Allocator + calculate_worker_assignments: %d schedules, %d distinct splits of the bulk task's clients, %d non-contiguous" % (n_sched, len(splits), out.extra["real_allocator_groups"]["noncontiguous_splits_enumerated"]))
     out.sample({"source": "real-allocator", "sched": al[0]["sched"], "groups": items[0]["cfg"]["groups"]})
     big = [big_case(s, k, ctx.seed) for k, s in enumerate(BIG_CASES + ([] if quick else BIG_CASES_THOROUGH))]
-    items = run_cases(big, out, "big", root)
+    items = run_cases(big, out, "big", root, pending)
     out.sample({"source": "big-files", "files": big[0]["files"], "offsets": items[0]["off"], "table": [s for s in items if s["kind"] == "seek"][0]["table"]})
     rnd = random_cases(ctx.seed + 9, 150 if quick else 2500)
-    run_cases(rnd, out, "rnd", root)
+    run_cases(rnd, out, "rnd", root, pending)
+    judge(pending[0], pending[1], out, "c03runs", chunk=700)
     out.note("leg C2S: %d items validated by TLC" % out.traces_validated)
     out.exhaustive = False
 
